@@ -36,7 +36,8 @@ import Tickit.Gen.WinInputCfg
          steal-input of windows of a set `A` closed under descendants (and restack or ref anything, and take the
          focus inside `A` when `A` is a union of top-level subtrees that holds the focus chain): the windows
          outside `A` are offered the event in the reference order of the tree as it was when the dispatch began
-         ........................................................... `delivery_unaffected_key`, `delivery_unaffected_mouse`
+         ........................................................... `delivery_unaffected_key`, `delivery_unaffected_mouse`,
+                                                                     `delivery_unaffected_persists` (whole events, histories)
 -/
 namespace Tickit.Props.C14
 open Tickit Tickit.WinTree Tickit.WinInput
@@ -750,6 +751,36 @@ theorem delivery_unaffected_mouse (A : Aff) (fuel F : Nat) (st st' : St) (win : 
   have m := n hwin F vs hv
   refine ⟨ws, off, m.1, ?_, g.good.1⟩
   intro hr; subst hr; exact m.2 rfl
+
+/-- **The hypotheses persist.**  After a whole key event, and after a whole mouse event — with all the dispatches
+    `on_term_mouse` makes for it: DRAG_START, DRAG_DROP, DRAG_STOP, the event itself, DRAG_OUTSIDE — the hypotheses of
+    the delivery theorems hold again, of the store as it is then and the same set `A`: every dispatch of a history of
+    events is covered, each against the tree as it was when that dispatch began. -/
+theorem delivery_unaffected_persists (A : Aff) (st st' : St) (ev : Ev) (hu : Unaffected A st) :
+    (emitKey Cfg.repaired st ev = Out.ok st' → Unaffected A st') ∧
+    (emitMouse Cfg.repaired st ev = Out.ok st' → Unaffected A st') := by
+  obtain ⟨w0, hw0, hf0, _⟩ := hu.inv.tree.root
+  constructor
+  · intro h
+    unfold emitKey onTermKey at h
+    obtain ⟨⟨st1, handled⟩, h1, h⟩ := out_bind_eq_ok.1 h
+    obtain ⟨g, _⟩ := handleKey_sim hu.base _ st 0 ev [] st1 handled hu.dinv ⟨w0, hw0, hf0⟩ h1
+    simp only [out_pure, Out.ok.injEq] at h
+    subst h
+    have g' := g.unaffected hu.base
+    cases handled with
+    | true => exact g'
+    | false => exact g'.say _
+  · intro h
+    unfold emitMouse at h
+    obtain ⟨⟨st1, handled⟩, h1, h⟩ := out_bind_eq_ok.1 h
+    have g := (onTermMouse_po hu.base _ ev hu.dinv).run (st1, handled) h1
+    simp only [out_pure, Out.ok.injEq] at h
+    subst h
+    have g' := DInv.unaffected hu.base g
+    cases handled with
+    | true => exact g'
+    | false => exact g'.say _
 
 /-! ### the hypotheses of the theorems above are met by real histories (non-vacuity) -/
 
